@@ -163,6 +163,15 @@ Theorem C09_sort_unique : forall l l' : list mx_carg,
 Proof. exact mx_sort_unique. Qed.
 Print Assumptions C09_sort_unique.
 
+(* ---- timeout: once a call of DoEvents has seen the soft deadline passed, the result is UNKNOWN with the marker,
+   whatever the plugin does afterwards and whatever exit code it produces ---- *)
+Theorem C09_timeout_unknown : forall pre e rest p' ex out,
+  mx_proc_steps mx_proc_init pre = Some p' -> mx_ev_past_soft e = true ->
+  mx_proc_run p' (e :: rest) = Some (ex, out) ->
+  ex = 128%Z /\ mx_infix mx_s_timeout out /\ mx_cr_state (mx_finish ex out) = 3%Z.
+Proof. exact mx_timeout_unknown. Qed.
+Print Assumptions C09_timeout_unknown.
+
 (* ---- the oracle run over implementation traces never fires on what the model produces ---- *)
 Theorem C09_oracle_accepts_model : forall env command arguments plugin_exit plugin_out,
   mx_oracle_resolve env command arguments (mx_resolve_arguments env command arguments) = None /\
@@ -172,6 +181,11 @@ Proof.
   intros. split; [apply mx_oracle_resolve_accepts|]. intros. apply mx_oracle_exec_accepts; assumption.
 Qed.
 Print Assumptions C09_oracle_accepts_model.
+
+Theorem C09_oracle_accepts_timeout : forall evs s e m,
+  mx_timeout_observe evs = Some (s, e, m) -> mx_oracle_timeout evs s e m = None.
+Proof. exact mx_oracle_timeout_accepts. Qed.
+Print Assumptions C09_oracle_accepts_timeout.
 
 Theorem C09_oracle_accepts_pure : forall v st output,
   (~ In 0 v -> mx_oracle_escape v (mx_escape_shell_arg v) = None) /\
